@@ -1,11 +1,13 @@
 use crate::rng::Rng;
 
+pub mod alloc;
 pub mod tsc;
 
 /// Generates `n` requests for `lab`.
 pub fn gen(lab: &str, rng: &mut Rng, n: usize) -> Vec<String> {
     match lab {
         "tsc" => tsc::gen(rng, n),
+        "alloc" => alloc::gen(rng, n),
         _ => panic!("unknown lab {lab}"),
     }
 }
@@ -15,6 +17,7 @@ pub fn exec(verb: &str, req: &str) -> String {
     let toks: Vec<&str> = req.split(' ').skip(1).collect();
     match verb {
         "tsc" | "tsc3" | "tscshift" | "dur" | "prec" | "precs" => tsc::exec(verb, &toks),
+        "prof" | "tally" | "tallymt" => alloc::exec(verb, &toks),
         _ => format!("bad-verb"),
     }
 }
